@@ -1830,9 +1830,13 @@ pub unsafe fn abi_entry_light<T: AbiExportable + ?Sized>(flag: AbiProtocol) {
             };
             error_callback(error_receiver, &err as *const _)
         }
-        AbiProtocol::DropInstance { trait_object } => unsafe {
-            destroy_trait_obj::<T>(trait_object);
-        },
+        AbiProtocol::DropInstance { trait_object } => {
+            // A panicking destructor must not unwind through the extern "C" entry point
+            // (that aborts the process). There is no channel to report it to the caller.
+            let _ = catch_unwind(std::panic::AssertUnwindSafe(|| unsafe {
+                destroy_trait_obj::<T>(trait_object);
+            }));
+        }
     }
 }
 /// Helper implementation of ABI entry point.
